@@ -264,6 +264,93 @@ func bufferGuards(f *hc.Facts) {
 	advance("consumeIDAdvance", "Buffer.ConsumeID")
 }
 
+// boolTables extracts the switch tables of Buffer.Bool (type id → value) and Buffer.PutBool
+// (value → type id) as Lean association lists that the model interprets.
+func boolTables(f *hc.Facts) {
+	constOf := func(x ast.Expr) (string, bool) {
+		if id, ok := x.(*ast.Ident); ok {
+			return f.ConstInt("bin", id.Name)
+		}
+		return "", false
+	}
+	var dec, enc []string
+	okDec, okEnc := false, false
+	if fd := f.FuncDecl("bin", "Buffer.Bool"); fd != nil {
+		ast.Inspect(fd.Body, func(n ast.Node) bool {
+			sw, ok := n.(*ast.SwitchStmt)
+			if !ok {
+				return true
+			}
+			okDec = true
+			for _, st := range sw.Body.List {
+				cc := st.(*ast.CaseClause)
+				if len(cc.List) == 0 { // default
+					continue
+				}
+				val := ""
+				for _, bs := range cc.Body {
+					if rs, ok := bs.(*ast.ReturnStmt); ok && len(rs.Results) == 2 {
+						val = f.Src(rs.Results[0])
+					}
+				}
+				for _, e := range cc.List {
+					id, ok := constOf(e)
+					if !ok || (val != "true" && val != "false") {
+						okDec = false
+						continue
+					}
+					dec = append(dec, fmt.Sprintf("(%s, %s)", id, val))
+				}
+			}
+			return false
+		})
+	}
+	if fd := f.FuncDecl("bin", "Buffer.PutBool"); fd != nil {
+		ast.Inspect(fd.Body, func(n ast.Node) bool {
+			sw, ok := n.(*ast.SwitchStmt)
+			if !ok {
+				return true
+			}
+			okEnc = true
+			for _, st := range sw.Body.List {
+				cc := st.(*ast.CaseClause)
+				if len(cc.List) != 1 {
+					okEnc = false
+					continue
+				}
+				key := f.Src(cc.List[0])
+				id := ""
+				for _, bs := range cc.Body {
+					ast.Inspect(bs, func(m ast.Node) bool {
+						if ce, ok := m.(*ast.CallExpr); ok && len(ce.Args) == 1 && strings.HasSuffix(f.Src(ce.Fun), ".PutID") {
+							if v, ok := constOf(ce.Args[0]); ok {
+								id = v
+							}
+						}
+						return true
+					})
+				}
+				if (key != "true" && key != "false") || id == "" {
+					okEnc = false
+					continue
+				}
+				enc = append(enc, fmt.Sprintf("(%s, %s)", key, id))
+			}
+			return false
+		})
+	}
+	if okDec {
+		f.Raw("def boolDecodeTable : List (Nat × Bool) := [" + strings.Join(dec, ", ") + "] -- switch of bin.Buffer.Bool: type id ↦ value")
+	} else {
+		f.Missing("boolDecodeTable", "switch of Buffer.Bool not recognised")
+	}
+	if okEnc {
+		f.Raw("def boolEncodeTable : List (Bool × Nat) := [" + strings.Join(enc, ", ") + "] -- switch of bin.Buffer.PutBool: value ↦ type id")
+	} else {
+		f.Missing("boolEncodeTable", "switch of Buffer.PutBool not recognised")
+	}
+}
+
 func facts(f *hc.Facts) {
 	f.Const("word", "bin", "Word")
 	f.Const("maxSmallStringLength", "bin", "maxSmallStringLength")
@@ -285,6 +372,7 @@ func facts(f *hc.Facts) {
 	decoderFacts(f, "decB", "decodeBytes", padFns)
 	decoderFacts(f, "decS", "decodeString", padFns)
 	bufferGuards(f)
+	boolTables(f)
 }
 
 // ---- implementation adapters ------------------------------------------------------------
